@@ -85,32 +85,8 @@ def leave_prog(depth, style):
     return {"globals": [], "procs": procs}
 
 
-def reentry_progs():
-    """main entered again from X code (by itself, through a procedure, through a function, from a loop): only the
-    activation started by the entry stub returns to the stub, and it must do so with the load-time stack pointer.
-    The recursion is driven by the input so that every variable is assigned before it is read."""
-    out = []
-    for nl in (0, 1, 3, 12):
-        locs = "".join("  var l%d;\n" % i for i in range(1, nl + 1))
-        use = "".join("  l%d := c + %d;\n" % (i, i) for i in range(1, nl + 1))
-        last = "l%d - %d" % (nl, nl) if nl else "c"
-        shapes = {
-            "self": ("", "if c = 'a' then main() else skip"),
-            "proc": ("proc p(val k) is if k = 'a' then main() else skip\n", "p(c)"),
-            "func": ("func f(val k) is { if k = 'a' then main() else skip; return k + 1 }\n", "g := f(c) - 1"),
-            "loop": ("", "{ g := c; while g = 'a' do { main(); g := 0 } }"),
-            "twice": ("", "if c = 'a' then { main(); main() } else skip"),
-        }
-        for name, (helpers, call) in shapes.items():
-            src = ("var g;\n" + helpers + "proc main() is\n  var c;\n" + locs + "{\n  c := 2(0);\n" + use +
-                   "  " + call + ";\n  1(" + last + ", 0)\n}\n")
-            for inp in (b"b", b"ab", b"aaab", b"aabab" + b"b" * 8, b"a" * 40 + b"b" * 60):
-                out.append(("stress-reenter:%s:%d:%d" % (name, nl, len(inp)), xref.parse(src), inp, {}))
-    return out
-
-
 def stress_items(tier, rnd):
-    items = reentry_progs()
+    items = [(tag, prog, inp, {}) for tag, prog, inp in xgen.reentry_matrix()]
     depths = [0, 1, 2, 3, 10, 50, 150, 199]
     for d in depths:
         for nl in ([0, 1, 3, 10, 40] if tier != "quick" else [0, 2, 40]):
